@@ -40,6 +40,13 @@ def _events(args):
         rootseq = Sequence(root, Alphabet[alpha], id="root")
         l = E.make_loc(blocks, st, Parent(id="root", sequence=rootseq), force_compound=rnd.random() < 0.3)
         ev.append(["ext", alpha, list(root), [blocks, st], E.outcome(lambda: list(str(l.extract_sequence())))])
+        # the same object asked again (a refusal does not wear off, an answer does not change), and its first block
+        ev.append(["ext", alpha, list(root), [blocks, st], E.outcome(lambda: list(str(l.extract_sequence())))])
+        if st == "." and blocks and blocks[0][1] > blocks[0][0]:
+            b0 = l.blocks[0]
+            for _ in range(2):
+                ev.append(["ext", alpha, list(root), [[[b0.start, b0.end]], st],
+                           E.outcome(lambda: list(str(b0.extract_sequence())))])
         if st in "+-" and not _self_overlaps(blocks) and rnd.random() < 0.5:
             # locations DERIVED from one that has already been read (strand flipped once, twice; single blocks of it):
             # each reads the parent for itself (layouts whose own blocks overlap re-sort on a flip: the keyed order finding)
